@@ -10,12 +10,14 @@ QUICK = {
     'one_many': 2, 'one_one': 2, 'many_one_2key': 2, 'reflexive_11': 3, 'reflexive_1m': 3,
     'assoc_class': {'L': 1, 'R': 1, 'A': 2}, 'assoc_reflexive': {'N': 2, 'E': 2},
     'subsuper': {'SUP': 2, 'SA': 1, 'SB': 1}, 'shared_ref': {'T': 1, 'V': 1, 'S': 2},
+    'phrase_ends': {'P': 1, 'D': 2},
 }
 THOROUGH = {
     'one_many': {'S': 3, 'T': 2}, 'one_one': {'S': 3, 'T': 2}, 'many_one_2key': {'S': 3, 'T': 2},
     'reflexive_11': 4, 'reflexive_1m': 4,
     'assoc_class': {'L': 2, 'R': 1, 'A': 2}, 'assoc_reflexive': {'N': 2, 'E': 2},
     'subsuper': {'SUP': 2, 'SA': 2, 'SB': 1}, 'shared_ref': {'T': 2, 'V': 1, 'S': 2},
+    'phrase_ends': {'P': 2, 'D': 2},
 }
 
 
